@@ -137,6 +137,20 @@ def setNameFromKey (dict : KVs) : Out KVs :=
 
 def isExtKey (k : String) : Bool := "x-".toList.isPrefixOf k.toList
 
+/-- `strings.Split(part, ".")` on code points (kernel-reducible, unlike `String.splitOn`) -/
+def splitDots : List Char → List Char → List String
+  | [], cur => [String.ofList cur.reverse]
+  | c :: cs, cur => if c = '.' then String.ofList cur.reverse :: splitDots cs [] else splitDots cs (c :: cur)
+
+/-- `strings.ReplaceAll(part, ".", "👻")` -/
+def escDots (s : String) : String :=
+  String.ofList (s.toList.flatMap fun c => if c = '.' then TPath.ghost.toList else [c])
+
+/-- `tree.Path.Next` (same function as `TPath.next`, written so that the kernel can evaluate it):
+at the root the part is not escaped, elsewhere dots become 👻 -/
+def pnext (p : TPath) (part : String) : TPath :=
+  if p = TPath.root then splitDots part.toList [] else p ++ [escDots part]
+
 def isUserDefined (p : TPath) : Bool := userDefinedKeys.any (fun uk => TPath.pmatch uk p)
 
 /-- the `extras` map: the `x-` entries, unless the keys at this path are user defined -/
@@ -157,13 +171,13 @@ def pxKVs (p : TPath) (skip : Bool) : KVs → KVs
   | [] => []
   | (k, v) :: r =>
     if !skip && isExtKey k then pxKVs p skip r
-    else (k, pxVal (TPath.next p k) v) :: pxKVs p skip r
+    else (k, pxVal (pnext p k) v) :: pxKVs p skip r
 /-- only mapping elements of a sequence are visited -/
 def pxSeq (p : TPath) (i : Nat) : List Val → List Val
   | [] => []
   | .map kvs :: xs =>
-    .map (withExtras (extrasOf (isUserDefined (TPath.next p (toString i))) kvs)
-            (pxKVs (TPath.next p (toString i)) (isUserDefined (TPath.next p (toString i))) kvs)) :: pxSeq p (i + 1) xs
+    .map (withExtras (extrasOf (isUserDefined (pnext p (toString i))) kvs)
+            (pxKVs (pnext p (toString i)) (isUserDefined (pnext p (toString i))) kvs)) :: pxSeq p (i + 1) xs
   | x :: xs => x :: pxSeq p (i + 1) xs
 end
 
@@ -355,8 +369,8 @@ def render (r : Renderer) (secretsContent : Bool) (p : Proj) : Val :=
 /-! ## the flow: raw model (just before `ResolveEnvironment`) → loaded project -/
 
 /-- `ResolveEnvironment` (secrets and configs part) → `Normalize` (`name` := project name; `setNameFromKey`)
-→ `modelToProject` (`processExtensions`, `Transform`) -/
-def load (env : Env) (pname : String) (dict : KVs) : Out Proj :=
+→ `modelToProject` (`processExtensions`, `Transform`): the literal composition of the whole-tree stage models -/
+def loadDict (env : Env) (pname : String) (dict : KVs) : Out Proj :=
   let d1 := resolveConfigsEnv env (resolveSecretsEnv env dict)
   (setNameSections pname ["configs", "secrets"] d1).bind fun d2 =>
   match processExtensions d2 with
@@ -365,6 +379,22 @@ def load (env : Env) (pname : String) (dict : KVs) : Out Proj :=
     (decodeSection decodeConfig "configs" d3).bind fun cs =>
     .ok { secrets := ss, configs := cs }
   | _ => .err "impossible"
+
+/-- the same pipeline, one section at a time (the form the theorems are about; the driver checks on every
+case that it agrees with `loadDict`) -/
+def loadSection (isSecret : Bool) (env : Env) (pname : String) (dict : KVs) : Out (List (String × FileObj)) :=
+  match lookup (if isSecret then "secrets" else "configs") dict with
+  | none => .ok []
+  | some (.map objs) =>
+    (setNameObjs pname (resolveObjs (if isSecret then xValue else "content") env objs)).bind fun objs2 =>
+      decodeObjs (if isSecret then decodeSecret else decodeConfig)
+        (pxKVs [if isSecret then "secrets" else "configs"] true objs2)
+  | some _ => .panic "loader.setNameFromKey"
+
+def load (env : Env) (pname : String) (dict : KVs) : Out Proj :=
+  (loadSection true env pname dict).bind fun ss =>
+  (loadSection false env pname dict).bind fun cs =>
+  .ok { secrets := ss, configs := cs }
 
 def flow (env : Env) (pname : String) (dict : KVs) (r : Renderer) (secretsContent : Bool) : Out Val :=
   (load env pname dict).bind fun p => .ok (render r secretsContent p)
